@@ -22,6 +22,7 @@ type IArg struct {
 	D int    `json:"d,omitempty"` // 1+buffer id detached by valueOf; 0 = plain number
 }
 type VArg struct {
+	U   bool   `json:"u,omitempty"` // undefined (search elements only)
 	Big bool   `json:"big,omitempty"`
 	Z   string `json:"z"` // Number: float64 bit pattern (decimal); BigInt: decimal integer
 	D   int    `json:"d,omitempty"`
@@ -213,6 +214,9 @@ func jsI(a *IArg) string {
 	return wrapDetach(a.D, jsNum(f64FromBits(a.N)))
 }
 func jsV(a VArg) string {
+	if a.U {
+		return "undefined"
+	}
 	if a.Big {
 		return wrapDetach(a.D, a.Z+"n")
 	}
@@ -256,6 +260,15 @@ func coqI(a *IArg) string {
 	return "(Some " + coqI1(a) + ")"
 }
 func coqI1(a *IArg) string { return fmt.Sprintf("(cI %s %d)", dy(f64FromBits(a.N)), a.D) }
+func coqS(a VArg) string {
+	switch {
+	case a.U:
+		return "SUndef"
+	case a.Big:
+		return "(SBig " + coqZs(a.Z) + ")"
+	}
+	return "(sN " + dy(f64FromBits(a.Z)) + ")"
+}
 func coqV(a VArg) string {
 	if a.Big {
 		return fmt.Sprintf("(cB %s %d)", coqZs(a.Z), a.D)
@@ -289,6 +302,8 @@ func valObs(v goja.Value) string {
 		return "XUndef"
 	}
 	switch x := v.Export().(type) {
+	case bool:
+		return fmt.Sprintf("(XBool %v)", x)
 	case int64:
 		return fmt.Sprintf("(XNum %s)", dy(float64(x)))
 	case float64:
@@ -336,6 +351,10 @@ func (e *env) valid(o *Op) bool {
 		return o.V >= 0 && o.V < nv && o.A1 != nil && o.A2 != nil
 	case "fill":
 		return o.V >= 0 && o.V < nv && o.Val != nil
+	case "ctorfrom":
+		return o.S >= 0 && o.S < nv
+	case "includes", "indexof", "lastindexof":
+		return o.V >= 0 && o.V < nv && o.Val != nil && o.Val.D == 0
 	case "slice", "subarray", "reverse", "lens", "sort":
 		return o.V >= 0 && o.V < nv
 	case "dvget":
@@ -412,6 +431,10 @@ func (e *env) runOp(o *Op) (out stepOut) {
 		src = fmt.Sprintf("var t=V[%d].slice(%s,%s);V.push(t);B.push(t.buffer);t.length", o.V, jsI(o.A1), jsI(o.A2))
 		coqOp = fmt.Sprintf("wSlice %d %s %s", o.V, coqI(o.A1), coqI(o.A2))
 		kind = 1
+	case "ctorfrom":
+		src = fmt.Sprintf("var t=new %s(V[%d]);V.push(t);B.push(t.buffer);t.length", jsCtor[o.K], o.S)
+		coqOp = fmt.Sprintf("wCtorFrom %s %d", kindNames[o.K], o.S)
+		kind = 1
 	case "subarray":
 		src = fmt.Sprintf("var t=V[%d].subarray(%s,%s);V.push(t);t.length", o.V, jsI(o.A1), jsI(o.A2))
 		coqOp = fmt.Sprintf("wSubarray %d %s %s", o.V, coqI(o.A1), coqI(o.A2))
@@ -419,6 +442,14 @@ func (e *env) runOp(o *Op) (out stepOut) {
 	case "reverse":
 		src = fmt.Sprintf("V[%d].reverse();undefined", o.V)
 		coqOp = fmt.Sprintf("wReverse %d", o.V)
+	case "includes", "indexof", "lastindexof":
+		name := map[string]string{"includes": "includes", "indexof": "indexOf", "lastindexof": "lastIndexOf"}[o.O]
+		args := jsV(*o.Val)
+		if o.A1 != nil {
+			args += "," + jsI(o.A1)
+		}
+		src = fmt.Sprintf("V[%d].%s(%s)", o.V, name, args)
+		coqOp = fmt.Sprintf("w%s %d %s %s", map[string]string{"includes": "Includes", "indexof": "IndexOf", "lastindexof": "LastIndexOf"}[o.O], o.V, coqS(*o.Val), coqI(o.A1))
 	case "sort":
 		src = fmt.Sprintf("V[%d].sort();undefined", o.V)
 		coqOp = fmt.Sprintf("wSort %d", o.V)
@@ -584,10 +615,13 @@ func runCase(c Case) vh.Record {
 			tags["dv:default-big-endian"] = true
 		}
 		switch o.O {
-		case "get", "set", "setarr", "settyped", "copywithin", "fill", "slice", "subarray", "reverse", "sort":
+		case "get", "set", "setarr", "settyped", "copywithin", "fill", "slice", "subarray", "reverse", "sort", "includes", "indexof", "lastindexof":
 			if o.V < len(e.views) && e.views[o.V].off > 0 {
 				tags["view:byteOffset>0"] = true
 			}
+		}
+		if o.O == "ctorfrom" && o.S < len(e.views) {
+			tags["ctorpair:"+kindNames[e.views[o.S].kind]+"_to_"+kindNames[o.K]] = true
 		}
 		if o.O == "settyped" && o.V < len(e.views) && o.S < len(e.views) {
 			d, sv := e.views[o.V], e.views[o.S]
@@ -643,7 +677,7 @@ func main() {
 		r := vh.NewRng(m.Seed)
 		scen := 0
 		for i := 0; i < m.N; i++ {
-			wild := i == 3 && m.Seed%1000 < 4
+			wild := false
 			// 2 of 5 cases start with a set(typedArray) scenario for one ordered (source kind, target kind) pair;
 			// the pairs are walked systematically so that all 121 occur in every run
 			pair := -1
